@@ -53,4 +53,5 @@ def run(c):
         "histories are sequential: the harness waits for quiescence (ping round over all live actors, Terminate callbacks) after every operation",
         "race theorem: the requester is not the terminating process and stays alive; Go sync.Map / atomic operations are linearizable (each model step = one such operation or one critical section of the target manager mutex)",
         "remote targets: only the target manager (CleanupNode) is modelled here; network frames belong to C14",
+        "history-level theorems (C04_sequential_hist, C04_history_total): operations are atomic and the 64-bit process id counter does not wrap (nextpid + number of operations < 2^64); meta-process aliases and event consumer counters are outside the model",
     ]
